@@ -34,6 +34,13 @@ def curated(rng):
     gs.append(P.mk_grammar("e5", [("P0", grp("plus", seq(grp("opt", grp("opt", lit("a"))), grp("nonempty", grp("star", cap("A", "strings", ref("Ident")))), lit("!"))), [F("A", "strings")])]))
     # captures applied directly to [ ] / { } groups inside modified or negated parentheses; negation of repeated terms
     gs.append(P.mk_grammar("e6", [("P0", seq(grp("plus", cap("A", "strings", grp("opt", alt(lit("-"), lit("+"))))), lit("!"), grp("nonempty", cap("B", "strings", grp("star", lit("x")))), neg(grp("star", lit(";"))), neg(grp("opt", grp("once", alt(lit("a"), lit("b")))))), [F("A", "strings"), F("B", "strings")])]))
+    # a suffix modifier directly after a bracket group: { x }!  [ x ]+  [ x ]*  (rendered with the bracket spellings)
+    GG.BRACKETS[0] = True
+    try:
+        gs.append(P.mk_grammar("e10", [("P0", seq(grp("nonempty", grp("star", cap("A", "strings", ref("Ident")))), lit("!"), grp("plus", grp("opt", cap("B", "strings", ref("Int")))),
+                                                  grp("star", grp("opt", seq(lit(","), cap("C", "strings", ref("Ident"))))), grp("opt", grp("star", lit(";")))), [F("A", "strings"), F("B", "strings"), F("C", "strings")])]))
+    finally:
+        GG.BRACKETS[0] = False
     # the empty literal, bare and typed; a production wider than any line width whose literals contain " | ", newlines and %
     gs.append(P.mk_grammar("e8", [("P0", seq(cap("A", "string", lit("", "Ident")), grp("opt", lit("")), cap("B", "strings", grp("once", grp("star", alt(lit("a"), lit(""))))), lit("!")), [F("A", "string"), F("B", "strings")])]))
     wide = [lit(" | "), lit("a | b"), lit("|"), lit(" |"), lit("x" * 30), lit("y" * 30), lit("z" * 30), lit("w" * 30), lit(" . "), lit("= "), lit("\n | \n")]
@@ -61,8 +68,8 @@ def run(pid, tier, args):
             g["structure"] = True
             g["userprods"] = []
         # hand-written Go types (anonymous / embedded structs): structure-independent clauses only
-        for sid in ("static-embedded", "static-anon-two", "static-anon-rec", "static-alias", "static-unicode-names", "static-parseable-twice", "static-embedded-3", "static-forproduction", "static-two-custom"):
-            gs.append({"id": sid, "structure": False, "root": "", "prods": [], "unions": {}, "userprods": {"static-parseable-twice": ["EsAmount"], "static-two-custom": ["EsKey", "EsVal"]}.get(sid, [])})
+        for sid in ("static-embedded", "static-anon-two", "static-anon-rec", "static-alias", "static-unicode-names", "static-parseable-twice", "static-embedded-3", "static-forproduction", "static-two-custom", "static-anon-iface"):
+            gs.append({"id": sid, "structure": False, "root": "", "prods": [], "unions": {}, "userprods": {"static-parseable-twice": ["EsAmount"], "static-two-custom": ["EsKey", "EsVal"], "static-anon-iface": ["EsAnonVal"]}.get(sid, [])})
         src = os.path.join(wd, "harness-src")
         codegen.emit([g for g in gs if g["structure"]], os.path.join(src, "gengram", "gen.go"))
         vhg = os.path.join(wd, "vh-gengram")
